@@ -243,6 +243,37 @@ func wrapFault(orig func(io.Writer) (int64, error), content []byte, fault *Fault
 	}
 }
 
+// faultySeeker is a caller-supplied io.ReadSeeker that misbehaves while its fault is armed.
+type faultySeeker struct {
+	r    *bytes.Reader
+	f    *Fault
+	read int
+}
+
+func (q *faultySeeker) armed() bool { return q.f.Gate == nil || atomic.LoadInt32(q.f.Gate) != 0 }
+
+func (q *faultySeeker) Read(p []byte) (int, error) {
+	if q.armed() && q.f.ErrKind == "source-read" && q.f.After >= 0 {
+		if q.read >= q.f.After {
+			return 0, ErrInjected
+		}
+		if len(p) > q.f.After-q.read {
+			p = p[:q.f.After-q.read]
+		}
+	}
+	n, err := q.r.Read(p)
+	q.read += n
+	return n, err
+}
+
+func (q *faultySeeker) Seek(off int64, whence int) (int64, error) {
+	if q.armed() && q.f.ErrKind == "source-seek" {
+		return 0, fmt.Errorf("verif: this stream cannot be rewound: %w", ErrInjected)
+	}
+	q.read = 0
+	return q.r.Seek(off, whence)
+}
+
 var tplText = tt.Must(tt.New("t").Parse("{{.}}"))
 
 // Build assembles a real mail.Msg through the public builder API.
@@ -396,10 +427,17 @@ func (s *MsgSpec) Build(env *Env) (*mail.Msg, error) {
 				err = m.EmbedReader(f.Name, bytes.NewReader(f.Content), fo...)
 			}
 		case "readseeker":
+			var rs io.ReadSeeker = bytes.NewReader(f.Content)
+			if ft, ok := env.Faults[fmt.Sprintf("%s%d", kind, i)]; ok && strings.HasPrefix(ft.ErrKind, "source-") {
+				// the fault sits in the caller's ReadSeeker itself (the library's own producer reads it): it delivers its
+				// data and cannot be rewound (source-seek), or fails in Read after After bytes (source-read)
+				ftc := ft
+				rs = &faultySeeker{r: bytes.NewReader(f.Content), f: &ftc}
+			}
 			if isAtt {
-				m.AttachReadSeeker(f.Name, bytes.NewReader(f.Content), fo...)
+				m.AttachReadSeeker(f.Name, rs, fo...)
 			} else {
-				m.EmbedReadSeeker(f.Name, bytes.NewReader(f.Content), fo...)
+				m.EmbedReadSeeker(f.Name, rs, fo...)
 			}
 		case "osfile":
 			p, e := env.tmpFile(f.Content)
@@ -482,7 +520,7 @@ func (s *MsgSpec) Build(env *Env) (*mail.Msg, error) {
 			return fmt.Errorf("%s %d: builder did not add the file (have %d)", kind, i, len(files))
 		}
 		var fault *Fault
-		if ft, ok := env.Faults[fmt.Sprintf("%s%d", kind, i)]; ok {
+		if ft, ok := env.Faults[fmt.Sprintf("%s%d", kind, i)]; ok && !(src == "readseeker" && strings.HasPrefix(ft.ErrKind, "source-")) {
 			fault = &ft
 		}
 		if f.Enc == "qp-direct" {
